@@ -86,6 +86,9 @@ def main():
             hit.setdefault(kf['id'], kf)
         else:
             new.append(v)
+    for k in vlib.load_known():
+        if k.get('property') == pid and k.get('status') == 'open' and k.get('deviation') in vlib.DEVS_USED:
+            hit.setdefault(k['id'], k)
     for k in hit.values():
         print('KNOWN-FINDING: property=%s %s' % (pid, k['text']))
     cov = res['coverage']
